@@ -11,7 +11,26 @@ import (
 
 // Gen draws every random choice of a case from one PRNG (seeded from VERIF_SEED and the
 // case index).
-type Gen struct{ R *simrt.Rand }
+type Gen struct {
+	R    *simrt.Rand
+	Deep bool // thorough tier: longer lists, larger expansions
+}
+
+// n draws a list length in 1..k (1..3k in the thorough tier).
+func (g *Gen) n(k int) int {
+	if g.Deep && g.R.Chance(1, 2) {
+		return 1 + g.R.Intn(3*k)
+	}
+	return 1 + g.R.Intn(k)
+}
+
+// cap is the bound on the size of an expansion.
+func (g *Gen) cap(c int64) int64 {
+	if g.Deep {
+		return 4 * c
+	}
+	return c
+}
 
 func pow2(n int64) int64 { return int64(1) << uint(n) }
 
